@@ -31,6 +31,11 @@ def base_diagram():
             {'kl': 'X', 'name': 'Xeno', 'comp': 'C2', 'attrs': [A('Id', 'base', 'unique_id'), A('V', 'base', 'Other_Real'),
                                                                A('P_Id', 'ref')], 'ids': [['Id']]},
             {'kl': 'G', 'name': 'Glob', 'comp': 'C1', 'attrs': [A('Id', 'base', 'unique_id'), A('T_Id', 'ref')], 'ids': [['Id']]},
+            # a two-attribute key whose referential names sort differently from the identifying names they refer to
+            {'kl': 'W', 'name': 'Owner', 'comp': 'C1', 'attrs': [A('Name', 'base', 'string'), A('Kind', 'base', 'integer')],
+             'ids': [['Name', 'Kind']]},
+            {'kl': 'I', 'name': 'Item', 'comp': 'C1', 'attrs': [A('Id', 'base', 'unique_id'), A('Holder', 'ref'), A('Variety', 'ref')],
+             'ids': [['Id']]},
         ],
         'rels': [
             {'k': 'simple', 'num': 1, 'comp': 'C1', 'form': 'B', 'part': 'A', 'fm': 1, 'fc': 1, 'pm': 0, 'pc': 0,
@@ -44,6 +49,8 @@ def base_diagram():
              'fph': 'child of', 'pph': 'parent of', 'keys': [['P_Id', 'Id']]},
             {'k': 'simple', 'num': 6, 'comp': 'C1', 'form': 'G', 'part': 'T', 'fm': 1, 'fc': 0, 'pm': 0, 'pc': 1,
              'fph': '', 'pph': '', 'keys': [['T_Id', 'Id']]},
+            {'k': 'simple', 'num': 8, 'comp': 'C1', 'form': 'I', 'part': 'W', 'fm': 1, 'fc': 1, 'pm': 0, 'pc': 0,
+             'fph': 'belongs to', 'pph': 'has', 'keys': [['Holder', 'Name'], ['Variety', 'Kind']]},
         ],
     }
 
